@@ -50,3 +50,9 @@ MUTANTS += [
        "            if (rel_target.lower() == target.lower()) if rel.is_external else (rel_target == target):\n                return rel.rId")],
      "R9.6 _Relationships._get_matching"),
 ]
+
+MUTANTS += [
+    ("layout-mode-not-written", "the horizontal-offset setter only adds a missing c:xMode and never writes its value",
+     [("src/pptx/oxml/chart/shared.py", "        self.get_or_add_xMode().val = ST_LayoutMode.FACTOR\n", "        if self.xMode is None:\n            self._add_xMode()\n")],
+     "R9.7 Legend.horz_offset"),
+]
